@@ -43,7 +43,7 @@ COMPONENTS = {
     "real": ["cutplace.rowio.fixed_rows", "io.TextIOWrapper/BufferedReader/StringIO", "codecs"],
     "stub": ["SimFS/SimRaw (short reads)", "fixed text peer", "client that abandons a prior reader"],
 }
-PROBES_REQUIRED = ["push-back-width-1", "push-back-width-2+", "cr-at-eof-under-any", "crlf-split-across-chunks",
+PROBES_REQUIRED = ["field-wider-than-io-buffers", "starts-with-u+feff", "push-back-width-1", "push-back-width-2+", "cr-at-eof-under-any", "crlf-split-across-chunks",
                    "short-last-record", "setting:any", "setting:lf", "setting:cr", "setting:crlf", "setting:none",
                    "prior-reader-abandoned-with-pending-push-back", "ambiguous-any", "source:path", "source:stream",
                    "source:stringio", "mutation:del", "mutation:ins", "mutation:sub", "multibyte-split"]
@@ -136,6 +136,9 @@ def generate(seed, tier):
     swarm = core.stream(seed, "swarm")
     fault_rng = core.stream(seed, "fault")
     widths = [swarm.randint(1, 3) for _ in range(swarm.randint(1, 3))]
+    if swarm.random() < 0.01:
+        # a field wider than any buffer between the file and the reader
+        widths[swarm.randrange(len(widths))] = swarm.choice([8191, 8193, 9000, 20000])
     setting = swarm.choice(sorted(SETTINGS))
     alphabet = swarm.choice([["a", "b"], ["a", "b", " "], ["a", "b", "\r", "\n"], ["a", " ", "\r", "\n", "ü"], ["a", "ü"]])
     kind = swarm.choice(["well-formed", "well-formed", "mutated", "mutated", "random"])
@@ -151,6 +154,9 @@ def generate(seed, tier):
             offset = fault_rng.randrange(len(text) + (1 if operation == "ins" else 0))
             char = fault_rng.choice(["a", "\r", "\n", " ", "X"])
             mutation = {"op": operation, "at": offset, "char": char}
+    if text and swarm.random() < 0.05:
+        # U+FEFF is a character like any other: if the file starts with it, so does the first field
+        text = "\ufeff" + text[1:]
     source = swarm.choice(["stringio", "stream", "path"])
     prior = None
     if swarm.random() < 0.3:
@@ -239,24 +245,29 @@ def judge(text, widths, setting, status, value, features):
 
     all_parses = parses(text, widths, setting)
     munch = greedy(text, widths, setting)
+
+    def short(value):
+        shown = repr(value)
+        return shown if len(shown) <= 400 else "%s...<%d characters>...%s" % (shown[:200], len(shown) - 300, shown[-100:])
+
     if status == "exc":
         if not isinstance(value, errors.DataFormatError):
             raise core.Violation("other-exception", features + ["class=" + type(value).__name__],
-                                 "text=%r widths=%r setting=%s: %r" % (text, widths, setting, value))
+                                 "text=%s widths=%r setting=%s: %r" % (short(text), widths, setting, value))
         if munch is not None:
             raise core.Violation("well-formed-input-rejected", features,
-                                 "text=%r widths=%r setting=%s is well-formed (%r) but: %s" % (text, widths, setting, munch, value))
+                                 "text=%s widths=%r setting=%s is well-formed (%s) but: %s" % (short(text), widths, setting, short(munch), value))
         return "rejected", len(all_parses), munch
     rows = value
     if rows not in all_parses:
         bad_width = any(len(item) != width for row in rows for item, width in zip(row, widths)) or any(
             len(row) != len(widths) for row in rows)
         rule = "misaligned-rows" if bad_width else ("silently-repaired" if not all_parses else "rows-not-a-parse-of-input")
-        raise core.Violation(rule, features, "text=%r widths=%r setting=%s returned %r; parses: %r" % (
-            text, widths, setting, rows, all_parses[:3]))
+        raise core.Violation(rule, features, "text=%s widths=%r setting=%s returned %s; parses: %s" % (
+            short(text), widths, setting, short(rows), short(all_parses[:3])))
     if munch is not None and rows != munch:
-        raise core.Violation("not-the-maximal-munch-parse", features, "text=%r widths=%r setting=%s returned %r, expected %r" % (
-            text, widths, setting, rows, munch))
+        raise core.Violation("not-the-maximal-munch-parse", features, "text=%s widths=%r setting=%s returned %s, expected %s" % (
+            short(text), widths, setting, short(rows), short(munch)))
     return "accepted", len(all_parses), munch
 
 
@@ -338,6 +349,10 @@ def execute(scenario):
         features.append("prior-reader")
     # reach
     result.probe("setting:" + setting)
+    if max(widths) > 8000:
+        result.probe("field-wider-than-io-buffers")
+    if text.startswith("\ufeff"):
+        result.probe("starts-with-u+feff")
     result.probe("source:" + scenario["source"])
     if scenario.get("mutation"):
         result.probe("mutation:" + scenario["mutation"]["op"])
